@@ -256,7 +256,8 @@ fn run_case(seed: u64, idx: usize, bin: &str, rt: &std::sync::Arc<tokio::runtime
                     viol!("stream-items-not-accounted", "step {}: stream of {} items answered inserted {} + failed {}", step, sent, ok_cnt, fail_cnt);
                 }
                 if ok_cnt > valid_items.len() as u64 {
-                    if non_finite_items > 0 && ok_cnt <= valid_items.len() as u64 + non_finite_items {
+                    // attribute to the non-finite clause only when every refusable item of the stream is non-finite
+                    if non_finite_items > 0 && non_finite_items == sent - valid_items.len() as u64 {
                         viol!(format!("non-finite-vector-accepted|{}", if via_load { "BulkLoadHnsw" } else { "BulkInsert" }), "step {}: stream {:?} reports {} accepted items but only {} are acceptable", step, desc, ok_cnt, valid_items.len());
                     }
                     viol!("invalid-stream-item-accepted", "step {}: stream with {} valid items reports {} accepted ({:?})", step, valid_items.len(), ok_cnt, desc);
